@@ -1260,3 +1260,164 @@ Proof.
 Qed.
 
 End Pred.
+
+(* ------------------------------------------------------------------------------------------ *)
+(** * The statements Properties_TRAVS.v restates *)
+
+(** what the theorems assume of the table, the mesh's corner -> point table, the prepared vertex map and the start
+    corners: the C13 invariants, array sizes, and start corners on non-degenerate faces of the table *)
+Definition trav_pre (t : ttable) (c2p : list nat) (v2d0 : list Z) (order : option (list nat)) : Prop :=
+  tt_ok t /\ ncor t <= length c2p /\ tt_num_vertices t <= length v2d0 /\
+  forall c, In c (seq_corners t order) -> c < ncor t /\ tt_deg t (c / 3) = false.
+
+(** what a finished sequencer run delivers (state invariants + every start face visited) *)
+Definition trav_post (t : ttable) (c2p starts : list nat) (v2d0 : list Z) (s : tstate) : Prop :=
+  InvV t c2p starts v2d0 s /\ InvF t s /\ forall c, In c starts -> fv s (c / 3) = true.
+
+Theorem travs_dfs_total t c2p v2d0 order : trav_pre t c2p v2d0 order ->
+  exists s, dfs_sequence t c2p v2d0 order = ROk s /\ trav_post t c2p (seq_corners t order) v2d0 s.
+Proof. intros (K & A & B & C). destruct (dfs_sequence_ok t c2p v2d0 order K A B C) as (s & R & P). exists s. split; auto. Qed.
+Theorem travs_mpd_total t c2p v2d0 order : trav_pre t c2p v2d0 order ->
+  exists s, mpd_sequence t c2p v2d0 order = ROk s /\ trav_post t c2p (seq_corners t order) v2d0 s.
+Proof. intros (K & A & B & C). destruct (mpd_sequence_ok t c2p v2d0 order K A B C) as (s & R & P). exists s. split; auto. Qed.
+
+(** (b) in plain terms *)
+Theorem travs_entries t c2p starts v2d0 s : tt_ok t -> trav_post t c2p starts v2d0 s ->
+  (ts_num s = length (ts_d2c s) /\ length (ts_pts s) = length (ts_d2c s) /\ length (ts_v2d s) = length v2d0) /\
+  (forall d c, nth_error (ts_d2c s) d = Some c ->
+     c < ncor t /\ exists v, Vx t c = Some v /\ nth_error (ts_v2d s) v = Some (Z.of_nat d) /\
+                             nth_error (ts_pts s) d = Some (nth c c2p 0)) /\
+  (forall d1 d2 c1 c2, nth_error (ts_d2c s) d1 = Some c1 -> nth_error (ts_d2c s) d2 = Some c2 ->
+     Vx t c1 = Vx t c2 -> d1 = d2) /\
+  (forall x, x < ncor t -> (fv s (x / 3) = true \/ start_face starts x) ->
+     exists v d c, Vx t x = Some v /\ nth_error (ts_v2d s) v = Some (Z.of_nat d) /\
+                   nth_error (ts_d2c s) d = Some c /\ Vx t c = Some v) /\
+  (forall v, (exists d c, nth_error (ts_d2c s) d = Some c /\ Vx t c = Some v) \/
+             nth_error (ts_v2d s) v = nth_error v2d0 v) /\
+  ts_num s <= tt_num_vertices t /\ ts_num s <= ncor t.
+Proof.
+  intros K (IV & IF & SV).
+  split; [eapply post_counts; eauto|].
+  split; [eapply post_entry; eauto|].
+  split; [eapply post_inj; eauto|].
+  split. { intros x Hx [F | (st & Hst & E)]; eapply post_face_entries; eauto. }
+  split; [eapply post_keep; eauto|].
+  rewrite (iv_num _ _ _ _ _ IV).
+  split; [eapply post_le_vertices; eauto | eapply post_le_corners; eauto].
+Qed.
+
+(** (c) *)
+Theorem travs_causal t c2p starts v2d0 s d c : trav_post t c2p starts v2d0 s ->
+  nth_error (ts_d2c s) d = Some c ->
+  start_face starts c \/
+  exists o, Ox t c = Some o /\ entry_lt t s d o /\ entry_lt t s d (next_c o) /\ entry_lt t s d (prev_c o).
+Proof. intros (IV & IF & SV). eapply post_causal; eauto. Qed.
+
+(** PRED's premises *)
+Definition covers (t : ttable) (starts : list nat) : Prop := forall c, c < ncor t -> start_face starts c.
+
+Theorem travs_md_wf_post t c2v c2p starts v2d0 s :
+  tt_ok t -> tt_c2v t = map Some c2v -> trav_post t c2p starts v2d0 s -> covers t starts ->
+  md_wf (md_of c2v t s) (ts_num s).
+Proof. intros K HV (IV & IF & SV) C. eapply travs_md_wf; eauto. Qed.
+
+Theorem travs_len_guard t c2v c2p starts v2d0 s (data : list row) :
+  tt_ok t -> tt_c2v t = map Some c2v -> trav_post t c2p starts v2d0 s -> length data = ts_num s ->
+  (Z.of_nat (length data) <= md_num_corners (md_of c2v t s))%Z /\ length (md_d2c (md_of c2v t s)) = length data.
+Proof.
+  intros K HV (IV & IF & SV) L. rewrite L. split; [eapply travs_entries_le_corners; eauto|].
+  unfold md_of; cbn [md_d2c]. symmetry. apply (iv_num _ _ _ _ _ IV).
+Qed.
+
+(** no corner order (the decoder): every face is a start face *)
+Lemma covers_none t : tt_ok t -> covers t (seq_corners t None).
+Proof.
+  intros K c Hc. exists (3 * (c / 3)). split.
+  - unfold seq_corners. apply in_map_iff. exists (c / 3). split; auto. apply in_seq. pose proof (face_lt t c K Hc). lia.
+  - rewrite Nat.mul_comm. apply Nat.div_mul. lia.
+Qed.
+
+(** composition: what the prediction schemes are given by a real traversal satisfies PRED's hypotheses *)
+Theorem travs_pred_premises t c2v c2p v2d0 order (mpd : bool) :
+  trav_pre t c2p v2d0 order -> tt_c2v t = map Some c2v -> covers t (seq_corners t order) ->
+  exists s, (if mpd then mpd_sequence else dfs_sequence) t c2p v2d0 order = ROk s /\
+    md_wf (md_of c2v t s) (ts_num s) /\
+    (Z.of_nat (ts_num s) <= md_num_corners (md_of c2v t s))%Z /\
+    (Z.of_nat (ts_num s) <= Z.of_nat (tt_num_vertices t))%Z.
+Proof.
+  intros P HV C. pose proof P as (K & _).
+  assert (E : exists s, (if mpd then mpd_sequence else dfs_sequence) t c2p v2d0 order = ROk s /\
+                        trav_post t c2p (seq_corners t order) v2d0 s).
+  { destruct mpd; [apply travs_mpd_total | apply travs_dfs_total]; auto. }
+  destruct E as (s & R & Q). exists s. split; auto.
+  split; [eapply travs_md_wf_post; eauto|].
+  split. { destruct Q as (IV & IF & SV). eapply travs_entries_le_corners; eauto. }
+  destruct (travs_entries t c2p _ v2d0 s K Q) as (_ & _ & _ & _ & _ & B & _). lia.
+Qed.
+
+(** the table Create returns *)
+Theorem travs_ct_ok faces ct : ct_create faces = Some ct ->
+  tt_ok (tt_of_ct ct) /\ tt_c2v (tt_of_ct ct) = map Some (ct_c2v ct) /\
+  forall f, f < length faces -> tt_deg (tt_of_ct ct) f = is_degenerated (c2v_of_faces faces) f.
+Proof. intros H. split; [eapply ct_create_tt_ok; eauto|]. split; [reflexivity|]. intros f Hf. eapply ct_tt_deg; eauto. Qed.
+
+(** (d) determinism: equal arrays, equal corner lists => equal results (both methods); and the two orders correspond *)
+Theorem travs_agreement t t' c2p v2d0 o o' :
+  tt_c2v t = tt_c2v t' -> tt_opp t = tt_opp t' -> tt_lmc t = tt_lmc t' -> seq_corners t o = seq_corners t' o' ->
+  dfs_sequence t c2p v2d0 o = dfs_sequence t' c2p v2d0 o' /\ mpd_sequence t c2p v2d0 o = mpd_sequence t' c2p v2d0 o'.
+Proof.
+  destruct t, t'; simpl. intros -> -> -> E. unfold dfs_sequence, mpd_sequence. rewrite E. auto.
+Qed.
+
+Lemma map_nth_error_seq {A} (l pre : list A) :
+  map (nth_error (pre ++ l)) (seq (length pre) (length l)) = map Some l.
+Proof.
+  revert pre; induction l as [|a l IH]; intros pre; cbn [length seq map]; auto. f_equal.
+  - rewrite nth_error_app2 by lia. rewrite Nat.sub_diag. reflexivity.
+  - replace (pre ++ a :: l) with ((pre ++ [a]) ++ l) by (rewrite <- app_assoc; reflexivity).
+    replace (S (length pre)) with (length (pre ++ [a])) by (rewrite app_length; simpl; lia). apply IH.
+Qed.
+
+(** the decoder's start corners 3 * i correspond, under [eb_corner_map], exactly to the encoder's corner order, and
+    the correspondence commutes with Next / Previous *)
+Theorem travs_orders_correspond order :
+  map (eb_corner_map order) (eb_decoder_order (length order)) = map Some order /\
+  forall i e, nth_error order i = Some e ->
+    eb_corner_map order (3 * i) = Some e /\ eb_corner_map order (next_c (3 * i)) = Some (next_c e) /\
+    eb_corner_map order (prev_c (3 * i)) = Some (prev_c e).
+Proof.
+  assert (D : forall i k, k < 3 -> (3 * i + k) / 3 = i /\ (3 * i + k) mod 3 = k).
+  { intros i k Hk. split.
+    - rewrite Nat.mul_comm, Nat.div_add_l by lia. rewrite Nat.div_small by lia. lia.
+    - rewrite Nat.add_comm, Nat.mul_comm, Nat.mod_add by lia. apply Nat.mod_small; lia. }
+  assert (Z0 : forall i, eb_corner_map order (3 * i) = nth_error order i).
+  { intros i. unfold eb_corner_map. destruct (D i 0) as [A B]; [lia|]. rewrite Nat.add_0_r in A, B. rewrite A, B.
+    destruct (nth_error order i); reflexivity. }
+  split.
+  - unfold eb_decoder_order. rewrite map_map. rewrite (map_ext _ (nth_error order) Z0).
+    apply (map_nth_error_seq order []).
+  - intros i e H. split; [rewrite Z0; exact H|]. rewrite next_0, prev_0. unfold eb_corner_map.
+    destruct (D i 1) as [A1 B1]; [lia|]. destruct (D i 2) as [A2 B2]; [lia|]. rewrite A1, B1, A2, B2, H. split; reflexivity.
+Qed.
+
+(** * The non-degenerate-start hypothesis is necessary, and the hypotheses are satisfiable *)
+Theorem travs_degenerate_start_refuted :
+  exists ct, ct_create [(0,1,1); (0,1,2); (0,2,3); (0,3,1)] = Some ct /\ tt_ok (tt_of_ct ct) /\
+    dfs_sequence (tt_of_ct ct) [0;1;1;0;1;2;0;2;3;0;3;1] (enc_v2d0 4) None = RErr.
+Proof.
+  destruct (ct_create_total [(0,1,1); (0,1,2); (0,2,3); (0,3,1)]) as (ct & H). exists ct. split; auto.
+  split; [eapply ct_create_tt_ok; eauto|].
+  vm_compute in H. inversion H. subst ct. vm_compute. reflexivity.
+Qed.
+
+Theorem travs_example_pre :
+  let t := match ct_create [(0,1,2); (2,1,3); (2,3,4)] with Some ct => tt_of_ct ct | None => mk_tt [] [] [] end in
+  trav_pre t [0;1;2;2;1;3;2;3;4] (enc_v2d0 5) None /\ covers t (seq_corners t None).
+Proof.
+  cbv zeta.
+  assert (K : tt_ok (match ct_create [(0,1,2); (2,1,3); (2,3,4)] with Some ct => tt_of_ct ct | None => mk_tt [] [] [] end)).
+  { apply tt_okb_sound. vm_compute. reflexivity. }
+  split; [|apply covers_none; exact K].
+  split; [exact K|]. split; [vm_compute; lia|]. split; [vm_compute; lia|].
+  intros c Hc. vm_compute in Hc. destruct Hc as [<- | [<- | [<- | []]]]; split; try (vm_compute; lia); vm_compute; reflexivity.
+Qed.
